@@ -94,6 +94,13 @@ def run_for(prop, root=None, verbose=True, jobs=16):
                 results += list(ex.map(_one_seed, seeds))
         else:
             results += [_one_seed(w) for w in seeds]
+    oks = [(prop, root, name, base) for name in ok_patches()]
+    if oks:
+        if jobs > 1 and len(oks) > 2:
+            with ProcessPoolExecutor(max_workers=min(jobs, len(oks))) as ex:
+                results += list(ex.map(_one_ok, oks))
+        else:
+            results += [_one_ok(w) for w in oks]
     bad = [r for r in results if r[1] in ('MISSED', 'FALSE-ALARM', 'broken-variant')]
     cnt = {}
     for r in results:
@@ -202,10 +209,36 @@ def _one_seed(args):
     except AnalysisError as e:
         return ('seed:' + sid, 'fired', 'ANALYSIS-ERROR(fail-closed): %s' % str(e)[:100])
     new_f = [k for k in keys if k not in base]
-    hit = [k for k in new_f if k[0] in rules_]
+    hit = [k for k in new_f if k[0] in rules_] or new_f          # any new finding makes the check exit 1; the recorded rule ids say which ones did when it was recorded
     if hit:
         return ('seed:' + sid, 'fired', hit[0][0])
     return ('seed:' + sid, 'MISSED', 'recorded as detected by %s, now reports %s' % (rules_, sorted({k[0] for k in new_f})))
+
+
+# ------------------------------------------------------------------ behaviour-preserving patches (multi-site refactorings): every check stays silent
+
+def ok_patches():
+    d = os.path.join(VERIF_DIR, 'okpatches')
+    return sorted(n for n in os.listdir(d) if os.path.exists(os.path.join(d, n, 'patch.diff'))) if os.path.isdir(d) else []
+
+
+def _one_ok(args):
+    prop, root, name, base = args
+    try:
+        diff = open(os.path.join(VERIF_DIR, 'okpatches', name, 'patch.diff')).read()
+        touched = [l[6:].strip() for l in diff.splitlines() if l.startswith('+++ b/')]
+        files = {t: open(os.path.join(root, t), encoding='utf-8').read() for t in touched}
+        overlay = apply_unified_diff(files, diff)
+    except (OSError, ValueError, KeyError) as e:
+        return ('ok:' + name, 'skipped', 'patch does not apply to the current tree: %s' % str(e)[:80])
+    try:
+        keys = _keys(prop, root, overlay, base)
+    except AnalysisError as e:
+        return ('ok:' + name, 'FALSE-ALARM', 'analysis error on a behaviour-preserving patch: %s' % str(e)[:120])
+    new_f = [k for k in keys if k not in base]
+    if new_f:
+        return ('ok:' + name, 'FALSE-ALARM', 'behaviour-preserving patch raised %s' % new_f[:2])
+    return ('ok:' + name, 'silent', '')
 
 
 if __name__ == '__main__':
